@@ -65,8 +65,35 @@ def corpus(rng, thorough):
     p1 = Point(1, None)
     p1.y = [p1]
     shared = [7]
+    # text that starts with / contains a byte-order mark, and a value whose pickling itself serializes something (re-entrant use of the serializer)
+    vs += ["\ufeff", "\ufeffid,name", "a\ufeffb", "\ufeff\ufeff", Envelope({"user": "alice", "visits": [1, 2, 3]}), [Envelope(b"inner bytes"), Envelope("txt"), 5]]
     vs += [Cyclic(l1, "list"), Cyclic(d1, "dict"), Cyclic(d2, "dict-child"), Cyclic(p1, "object"), [shared, shared, (shared,)]]
     return vs
+
+
+class Envelope:
+    """a value that keeps its body in serialized form: pickling it calls the library's serializer again (from inside the outer serialization)"""
+
+    def __init__(self, body):
+        self.body = body
+
+    def __eq__(self, o):
+        return type(o) is Envelope and o.body == self.body
+
+    def __repr__(self):
+        return "Envelope(%r)" % (self.body,)
+
+    def __reduce__(self):
+        from pymemcache import serde as _serde
+        payload, flags = _serde.pickle_serde.serialize("inner", self.body)
+        return (_open_envelope, (payload, flags))
+
+
+def _open_envelope(payload, flags):
+    from pymemcache import serde as _serde
+    if isinstance(payload, str):
+        payload = payload.encode("ascii")
+    return Envelope(_serde.pickle_serde.deserialize("inner", payload, flags))
 
 
 class Cyclic:
